@@ -38,6 +38,15 @@ package tokenizers
 //@     invariant spans(builder(tokenValue), scanner, old(cur(scanner)), min(sc(scanner).position, len(sc(scanner).content)))
 //@     decreases len(sc(scanner).content) - sc(scanner).position
 //
+// "identifiers may start with any configured letter, Latin or not": the characters a word may contain in expressions - letters,
+// digits, underscore, Latin-1 letters from U+00C0, everything from U+0100 to U+FFFE (no minus: it is an operator here)
+//@ spec exprWordChar(ch rune) bool = (97 <= ch && ch <= 122) || (65 <= ch && ch <= 90) || (48 <= ch && ch <= 57) || ch == 95 ||
+//@     (192 <= ch && ch <= 255) || (256 <= ch && ch <= 65534)
+//@ func NewExpressionWordState
+//@   ensures[C13] fresh(result) && result.GenericWordState != nil && result.GenericWordState.mp != nil && mapInv(result.GenericWordState.mp)
+//@   ensures[C13] forall ch rune :: (view(result.GenericWordState.mp, ch) != nil) == exprWordChar(ch)
+//@   assigns nothing
+//@   nopanic
 // keywords keep their spelling; the token is the word the generic word state read
 //@ func (c *ExpressionWordState) NextToken
 //@   requires c.GenericWordState != nil && mapInv(c.GenericWordState.mp)
